@@ -415,11 +415,21 @@ def execCheck (prev : Obs) (e : Option Nat) (j : Nat) (auth : List AuthM) : Opti
 
 def keyAt (defs : List Operation) (k : Nat) : Key := (defs[k]?).map Operation.id
 
-def consumedAt (m : Mon) (prev o : Obs) (k : Nat) (e : Option Nat) (j : Nat) (auth : List AuthM) : Option String :=
+/-- the operation names a predecessor which the accepted history does not hold executed -/
+def predPending (m : Mon) (k : Nat) : Bool :=
+  match m.defs[k]? with
+  | some d => decide (d.pred ≠ Id.zero) && decide (m.get (some d.pred) ≠ G.done)
+  | none => false
+
+/-- `chk`: also demand the predecessor (a payload with ONE context: no earlier context of the same payload can
+have executed it) -/
+def consumedAt (m : Mon) (prev o : Obs) (k : Nat) (e : Option Nat) (j : Nat) (auth : List AuthM) (chk : Bool) : Option String :=
   match early (m.get (keyAt m.defs k)) k prev.now with
   | some w => some w
   | none =>
-    if stCode prev k ≠ "R" then some s!"operation {k} for this call was {stCode prev k}, not Ready, before the call"
+    if chk = true ∧ predPending m k = true then
+      some s!"operation {k} for this call names a predecessor that has not been executed according to the accepted history"
+    else if stCode prev k ≠ "R" then some s!"operation {k} for this call was {stCode prev k}, not Ready, before the call"
     else if stCode o k ≠ "D" then some s!"operation {k} for this call is {stCode o k}, not Done, after the call"
     else execCheck prev e j auth
 
@@ -427,11 +437,11 @@ def consumedAt (m : Mon) (prev o : Obs) (k : Nat) (e : Option Nat) (j : Nat) (au
 descriptor `md` (index `j` in the payload): a defined operation with exactly this tuple, pending
 with its delay elapsed in the accepted history, reported Ready before and Done after; executors as
 configured before the call -/
-def consumed (m : Mon) (prev o : Obs) (f : Nat) (args : List Nat) (md : MetaM) (j : Nat) (auth : List AuthM) :
+def consumed (m : Mon) (prev o : Obs) (f : Nat) (args : List Nat) (md : MetaM) (j : Nat) (auth : List AuthM) (chk : Bool) :
     Option String :=
   match findDef m.defs (opKey f args (refKey m.defs md.p) md.s) with
   | none => some s!"no operation (controller, fn {f}, {showArgsT args}, {keyText (refKey m.defs md.p)}, salt {md.s}) was ever scheduled"
-  | some k => consumedAt m prev o k md.e j auth
+  | some k => consumedAt m prev o k md.e j auth chk
 
 /-! ### verdicts -/
 
@@ -515,7 +525,7 @@ def selfAuth (m : Mon) (prev o : Obs) (cl : CallLine) : Option String :=
   match cl.sig with
   | none => some s!"site=controller.admin.unconsumed `{cl.call.kind} {showArgsT (argsOf cl.call)}` accepted on the controller's own authority without any payload for the controller"
   | some (md :: _) =>
-    (consumed m prev o (fnOf cl.call) (argsOf cl.call) md 0 cl.auth).map (fun why =>
+    (consumed m prev o (fnOf cl.call) (argsOf cl.call) md 0 cl.auth true).map (fun why =>
       s!"site=controller.admin.unconsumed `{cl.call.kind} {showArgsT (argsOf cl.call)}` accepted on the controller's own authority but {why}")
   | some [] => some s!"site=controller.admin.unconsumed `{cl.call.kind} {showArgsT (argsOf cl.call)}` accepted on the controller's own authority with 0 operation descriptors for 1 authorized call: no ready operation for exactly that call was consumed"
 
@@ -591,7 +601,7 @@ def adminSelf (m : Mon) (prev o : Obs) (cl : CallLine) : Option String :=
   | none => some s!"site=controller.admin.unconsumed `{cl.call.kind} {showArgsT (argsOf cl.call)}` accepted on a self-administered controller without any payload for the controller"
   | some (md :: _) =>
     -- the descriptor matched with the (single) authorized call is the first one
-    (consumed m prev o (fnOf cl.call) (argsOf cl.call) md 0 cl.auth).map (fun why =>
+    (consumed m prev o (fnOf cl.call) (argsOf cl.call) md 0 cl.auth true).map (fun why =>
       s!"site=controller.admin.unconsumed `{cl.call.kind} {showArgsT (argsOf cl.call)}` accepted on a self-administered controller but {why}")
   | some [] => some s!"site=controller.admin.unconsumed `{cl.call.kind} {showArgsT (argsOf cl.call)}` accepted on a self-administered controller with 0 operation descriptors for 1 authorized call: no ready operation for exactly that call was consumed"
 
@@ -612,7 +622,7 @@ def checkCtx (m : Mon) (prev o : Obs) (metas : List MetaM) (ctxs : List CtxM) (a
   match (ctxs[j]?).bind (ctxCall m.defs), metas[j]? with
   | some (t, f, a), some md =>
     if t ≠ 0 then some s!"context {j} is a call on another contract ({t})"
-    else (consumed m prev o f a md j auth).map (fun w => s!"context {j}: {w}")
+    else (consumed m prev o f a md j auth (decide (ctxs.length = 1))).map (fun w => s!"context {j}: {w}")
   | _, _ => some s!"context {j} is not a contract call"
 
 /-- an accepted `__check_auth`: at least as many descriptors as contexts, every context a call on the
